@@ -374,8 +374,14 @@ def to_parquet(
             # output directory, since deleting those files now would result in
             # errors or incorrect results.
             for read_op in df.expr.find_operations(ReadParquet):
-                read_path_with_slash = str(read_op.path).rstrip("/") + "/"
-                write_path_with_slash = path.rstrip("/") + "/"
+                # ``path`` went through ``extract_filesystem`` and lost its
+                # protocol; the reader still holds the URL the user passed
+                read_path_with_slash = (
+                    _normalize_and_strip_protocol(str(read_op.path)).lstrip("/") + "/"
+                )
+                write_path_with_slash = (
+                    _normalize_and_strip_protocol(path).lstrip("/") + "/"
+                )
                 if read_path_with_slash.startswith(write_path_with_slash):
                     raise ValueError(
                         "Cannot overwrite a path that you are reading "
